@@ -130,11 +130,17 @@ pub fn run(ctx: &Ctx) -> Report {
         }
     }
 
+    // the unification matrix: what the checker accepts in every unification context × type pair
+    let (mrep, mobs) = crate::c06_matrix::run(ctx);
+    comp::merge(&mut rep, mrep);
+    obs.extend(mobs);
+
     let variants: BTreeSet<String> = obs.iter().map(|o| o.variant.clone()).collect();
     let classes = classify(&variants);
     for (v, c) in &classes {
         rep.notes.push(format!("{} -> {}", v, c));
     }
+    let mut matrix_groups: BTreeMap<String, u32> = BTreeMap::new();
     for o in &obs {
         let class = classes.get(&o.variant).map(|s| s.as_str()).unwrap_or("unknown-variant");
         rep.count(&format!("class:{}", class));
@@ -146,6 +152,16 @@ pub fn run(ctx: &Ctx) -> Report {
                 if o.which == "pre-optimisation" && o.variant == "TypeMismatch" && o.text.contains("Data)") {
                     rep.count("structural-in-pre-optimisation-typed-list (C02 finding)");
                     continue;
+                }
+                // the matrix reports at most three witnesses per unification context
+                if o.key.starts_with("matrix/") {
+                    let group: String = o.key.split('/').take(2).collect::<Vec<_>>().join("/");
+                    let n = matrix_groups.entry(group).or_insert(0u32);
+                    *n += 1;
+                    if *n > 3 {
+                        rep.count("matrix:structural-witnesses-not-listed");
+                        continue;
+                    }
                 }
                 let mut replay = o.replay.clone();
                 if let (Some(sd), Some(m)) = (replay["seed"].as_u64(), replay["module"].as_u64()) {
